@@ -8,6 +8,7 @@ import (
 	kruiseappsv1alpha1 "github.com/openkruise/kruise-api/apps/v1alpha1"
 	rolloutsv1beta1 "github.com/openkruise/rollouts/api/v1beta1"
 	"github.com/openkruise/rollouts/pkg/util"
+	apps "k8s.io/api/apps/v1"
 	corev1 "k8s.io/api/core/v1"
 	netv1 "k8s.io/api/networking/v1"
 	apiequality "k8s.io/apimachinery/pkg/api/equality"
@@ -110,6 +111,12 @@ func Residue(w *World, sc *Scenario, base *Baseline) []string {
 				}
 			}
 		}
+		if sc.Kind == "StatefulSet" {
+			st := &apps.StatefulSet{}
+			if w.Get(st, ns, AppName) && stsPartition(st) != 0 {
+				out = append(out, fmt.Sprintf("workload partition is still %d", stsPartition(st)))
+			}
+		}
 		if v.Updated != v.Pods || v.Ready != v.Pods || v.Pods != v.Replicas {
 			out = append(out, fmt.Sprintf("workload did not converge to the desired revision: %d/%d pods updated, %d ready", v.Updated, v.Replicas, v.Ready))
 		}
@@ -161,6 +168,9 @@ func (m *ExitMonitor) OnState(x *Ctx, quiescent bool) {
 		sig := "C05/restore/" + strings.Split(reason, "+")[0] + "/" + residueClass(res)
 		if x.Mon["c05.batchReleaseCreated"] == "" {
 			sig += "/exit-before-any-batchrelease-was-created"
+		}
+		if x.Mon["ctx.templateChangedWhileFinalising"] != "" {
+			sig += "/template-changed-while-finalising"
 		}
 		x.Violate(sig, "rollout ended ("+reason+") but: "+strings.Join(res, "; "))
 	}
@@ -229,7 +239,13 @@ func (FinalizerMonitor) OnWrite(x *Ctx, w *Write) {
 				res = append(res, "workload still marked as controlled / in progress")
 			}
 			if len(res) > 0 {
-				x.Violate("C18/early/rollout-finalizer", "Rollout finalizer removed while cleanup is incomplete: "+strings.Join(res, "; "))
+				sig := "C18/early/rollout-finalizer"
+				if x.Mon["ctx.forgotRelease"] != "" {
+					// the release had been forgotten before the deletion: the workload vanished mid-release and the
+					// Rollout reset its status to Initial without cleaning up
+					sig += "/after-workload-not-found-reset"
+				}
+				x.Violate(sig, "Rollout finalizer removed while cleanup is incomplete: "+strings.Join(res, "; "))
 			}
 		}
 	case "batchreleases":
